@@ -632,8 +632,9 @@ def _get_splits_hook(eng, args, kw, st, fr, k, node):
     data = args[0]
     from pyvc.engine import Arr as _Arr
     if not isinstance(data, _Arr):
-        # (only on the infeasible path future + rechunk)
-        return k(Opq(eng.fresh("split_indices", "V")), st.assume(z3.BoolVal(False)))
+        # (reachable only on the infeasible path future + rechunk: there the obligation holds vacuously)
+        eng.oblige("rechunk-on-load", "get_splits is given the rows of the chunk that was read", st, z3.BoolVal(False), node)
+        return k(Opq(eng.fresh("split_indices", "V")), st)
     s_arr, st = make_symbolic(eng, eng.new_base("split_indices"), ArrT("int"), st, set())
     S = eng.S
     sv, dv = eng.resolve(s_arr, st.heap), eng.resolve(data, st.heap)
@@ -653,13 +654,25 @@ def _np_diff_hook(eng, args, kw, st, fr, k, node):
     a = args[0]
     from pyvc.engine import Arr as _Arr
     if not isinstance(a, _Arr):
-        return k(Opq(eng.fresh("diffs", "V")), st.assume(z3.BoolVal(False)))
+        eng.oblige("rechunk-on-load", "the split indices come from get_splits", st, z3.BoolVal(False), node)
+        return k(Opq(eng.fresh("diffs", "V")), st)
     d_arr, st = make_symbolic(eng, eng.new_base("diffs"), ArrT("int"), st, set())
     S = eng.S
     av, dv = eng.resolve(a, st.heap), eng.resolve(d_arr, st.heap)
     st = st.assume(S.b(dv.n == av.n - 1))
     st = st.assume(S.b(S.forall(0, dv.n, lambda j: dv.at(j) == av.at(j + 1) - av.at(j))))
     return k(d_arr, st)
+
+
+def _submit_read(eng, args, kw, st, fr, k, node):
+    """executor.submit(self._read_and_format_chunk, **read_chunk_kwargs)"""
+    from pyvc.monitor import BoundMethod
+    eng.oblige("rechunk-on-load", "the job submitted is reading this very chunk (same arguments)", st,
+               z3.BoolVal(len(args) == 1 and kw.get("**") is st.env["read_chunk_kwargs"]), node)
+    fut = eng.fresh("read_future", "V")
+    g = dict(st.ghost)
+    g["fut"] = fut
+    return k(Opq(fut), St(st.env, st.heap, st.pc, g))
 
 
 def _rfs_views(a):
@@ -685,7 +698,8 @@ def _rfs_loop(S, a):
 
 def _rfs_yields(S, a, v):
     if not hasattr(v, "data"):
-        return [("without rechunking the (future of the) chunk itself is handed out", S.Not(a.rechunk))]
+        return [("without rechunking the (future of the) chunk itself is handed out",
+                 S.And(S.Not(a.rechunk), S.eq(S.v(v), a.ghost.fut)))]
     if "R" not in a.rghost:
         return []
     R = a.rghost["R"]
@@ -726,8 +740,8 @@ read_format_split = REG.add(Contract(
     raises={"Any": lambda S, a: S.true, "ValueError": lambda S, a: S.true, "ValueError:runs": lambda S, a: S.true,
             "CannotSplit": lambda S, a: S.false},
     yields=_rfs_yields,
-    ghost={"cur_end": z3.IntVal(0), "rows_out": z3.IntVal(0), "n_yields": z3.IntVal(0)},
-    calls={"self._read_and_format_chunk": _read_hook, "executor.submit": Abstract(), "strax.Rechunker.get_splits": _get_splits_hook,
+    ghost={"cur_end": z3.IntVal(0), "rows_out": z3.IntVal(0), "n_yields": z3.IntVal(0), "fut": z3.Const("no_future", V)},
+    calls={"self._read_and_format_chunk": _read_hook, "executor.submit": _submit_read, "strax.Rechunker.get_splits": _get_splits_hook,
            "np.diff": _np_diff_hook},
     consts={"strax.DEFAULT_CHUNK_SPLIT_NS": z3.IntVal(MIN_GAP)},
     loops={1: Loop(_rfs_loop)},
